@@ -3,6 +3,8 @@ C03 — events are acked once, after their consequences are issued; nothing leak
 Statements about the acknowledgement ledger replayed over *any* frame log.
 -/
 import AslModel.Ledger
+import Proofs.Lemmas.FramesRun
+import Proofs.Lemmas.FuelMono
 namespace Asl.C03
 open Asl
 
@@ -102,5 +104,169 @@ example : (Ledger.run [.deliver 1, .pub, .ack 1, .deliver 2, .pub, .recw, .ack 2
     (Ledger.run [.deliver 1, .pub, .ack 1, .deliver 2, .pub, .recw, .ack 2]).unacked = [] := by decide
 example : (Ledger.run [.deliver 1, .ack 1, .ack 1]).bad = true := by decide
 example : stepOrdered [.deliver 1, .pub, .ack 1] = true ∧ stepOrdered [.deliver 1, .ack 1, .pub] = false := by decide
+
+/-! ### the frames `Asl.run` predicts
+
+`Asl.run` emits, for every machine, input, behaviour of the workers and fuel, the handler steps of the engine
+with their broker frames (`Outcome.steps`, AslModel/Frames.lean).  What follows holds for every such run. -/
+
+/-- the predicted frames of a run, in the order of its steps, as ledger frames -/
+def predictedFrames (o : Outcome) : List Fr := (o.steps.flatMap (·.frames)).map toFr
+
+/-- the frame state of a run is well-formed at every fuel -/
+theorem run_fs_wf (env : Env) (fuel : Nat) (asl input ctx : Json) : (runCore env fuel asl input ctx).2.fs.WF := by
+  unfold runCore
+  split
+  · exact (presAll wfOps env fuel).runFrom _ _ _ _ _ _ wf_init
+  · exact wf_init
+
+theorem endFS_wf (r : Res) (st : St) (h : st.fs.WF) : (endFS r st).WF := by
+  unfold endFS
+  split
+  · exact h.terminal _ _
+  · exact h.terminal _ _
+  · exact h
+
+theorem steps_eq (env : Env) (fuel : Nat) (asl input ctx : Json) :
+    (run env fuel asl input ctx).steps =
+      (endFS (runCore env fuel asl input ctx).1 (runCore env fuel asl input ctx).2).steps.reverse := rfl
+
+/-- (i) every predicted step is ordered: nothing is published after an acknowledgement within a step -/
+theorem predicted_steps_ordered (env : Env) (fuel : Nat) (asl input ctx : Json) :
+    ∀ s ∈ (run env fuel asl input ctx).steps, stepOrdered (s.frames.map toFr) = true := by
+  intro s hs
+  rw [steps_eq] at hs
+  exact (endFS_wf _ _ (run_fs_wf env fuel asl input ctx)).ordered s (List.mem_reverse.mp hs)
+
+/-- … spelled out on the predicted frames themselves: after an acknowledgement nothing more is published in that step -/
+theorem predicted_nothing_published_after_ack (env : Env) (fuel : Nat) (asl input ctx : Json) :
+    ∀ s ∈ (run env fuel asl input ctx).steps, ∀ pre a post, s.frames = pre ++ a :: post → a.isAck = true →
+      ∀ f ∈ post, f.isPub = false := by
+  intro s hs pre a post he ha f hf
+  have ho := predicted_steps_ordered env fuel asl input ctx s hs
+  have := stepOrdered_spec (s.frames.map toFr) ho (pre.map toFr) (toFr a) (post.map toFr)
+    (by rw [he]; simp) (by cases a <;> simp_all [toFr, isAck, BFr.isAck]) (toFr f) (List.mem_map_of_mem hf)
+  cases f <;> simp_all [toFr, isOut, BFr.isPub]
+
+theorem count_zero_nil {l : List Nat} (h : ∀ t, l.count t = 0) : l = [] := by
+  cases l with
+  | nil => rfl
+  | cons a l => have := h a; simp at this
+
+theorem ended_cases (env : Env) (fuel : Nat) (asl input ctx : Json)
+    (h : (run env fuel asl input ctx).status = S "SUCCEEDED" ∨ (run env fuel asl input ctx).status = S "FAILED") :
+    (∃ d, (runCore env fuel asl input ctx).1 = .done d) ∨ (∃ e c f, (runCore env fuel asl input ctx).1 = .failed e c f) := by
+  unfold run Outcome.ofRun at h
+  cases hr : (runCore env fuel asl input ctx).1 with
+  | done d => exact Or.inl ⟨d, rfl⟩
+  | failed e c f => exact Or.inr ⟨e, c, f, rfl⟩
+  | fuel => rw [hr] at h; simp at h; rcases h with h | h <;> exact absurd h (by decide)
+  | unsupported w => rw [hr] at h; simp at h; rcases h with h | h <;> exact absurd h (by decide)
+
+/-- (ii) in a run that ended (SUCCEEDED / FAILED) the ledger replayed over the predicted frames is sound — no
+acknowledgement of a message that is not outstanding — and nothing is left unacknowledged -/
+theorem predicted_ledger_drained (env : Env) (fuel : Nat) (asl input ctx : Json)
+    (h : (run env fuel asl input ctx).status = S "SUCCEEDED" ∨ (run env fuel asl input ctx).status = S "FAILED") :
+    (Ledger.run (predictedFrames (run env fuel asl input ctx))).bad = false ∧
+    (Ledger.run (predictedFrames (run env fuel asl input ctx))).unacked = [] := by
+  have hw := run_fs_wf env fuel asl input ctx
+  have hb := (balAll env fuel)
+  -- the levels are as at the start: none
+  have hbal : (runCore env fuel asl input ctx).2.fs.lvl.fins = [] ∧ (runCore env fuel asl input ctx).2.fs.outer = [] := by
+    unfold runCore
+    split
+    · rename_i start states _ _
+      have h1 := (hb.runFrom states start input ctx 0 ({} : St))
+      exact ⟨by rw [h1.1], by rw [h1.2]⟩
+    · exact ⟨rfl, rfl⟩
+  -- the terminal step acknowledges what is left
+  have key : ∀ st : St, st.fs.WF → st.fs.lvl.fins = [] → st.fs.outer = [] → ∀ status,
+      (Ledger.run ((framesOf (st.fs.terminal st.clock status).steps).map toFr)).bad = false ∧
+      (Ledger.run ((framesOf (st.fs.terminal st.clock status).steps).map toFr)).unacked = [] := by
+    intro st hw h1 h2 status
+    have ht := hw.terminal st.clock status
+    refine ⟨ht.sound, count_zero_nil ?_⟩
+    intro t
+    have := ht.owes t
+    have ha : (st.fs.terminal st.clock status).allTails = [] := by
+      show st.fs.lvl.fins ++ st.fs.outer.flatMap (·.fins) = []
+      rw [h1, h2]; rfl
+    rw [ha] at this
+    simpa [FS.terminal, FS.closeAck] using this
+  have hpf : predictedFrames (run env fuel asl input ctx) =
+      (framesOf (endFS (runCore env fuel asl input ctx).1 (runCore env fuel asl input ctx).2).steps).map toFr := by
+    unfold predictedFrames
+    rw [steps_eq]
+    rfl
+  rw [hpf]
+  rcases ended_cases env fuel asl input ctx h with ⟨d, hd⟩ | ⟨e, c, f, hf⟩
+  · rw [hd]; exact key _ hw hbal.1 hbal.2 _
+  · rw [hf]; exact key _ hw hbal.1 hbal.2 _
+
+/-- … so every message the predicted frames deliver is acknowledged exactly as often as it is delivered (once) -/
+theorem predicted_every_delivery_acked (env : Env) (fuel : Nat) (asl input ctx : Json)
+    (h : (run env fuel asl input ctx).status = S "SUCCEEDED" ∨ (run env fuel asl input ctx).status = S "FAILED")
+    (t : Nat) :
+    acks t (predictedFrames (run env fuel asl input ctx)) = delivers t (predictedFrames (run env fuel asl input ctx)) :=
+  drained_all_acked _ t (predicted_ledger_drained env fuel asl input ctx h).1
+    (predicted_ledger_drained env fuel asl input ctx h).2
+
+/-- (iii) an acknowledgement does not precede the publication of what it stands for: in every predicted step that
+is not the last step of a branch waiting for its join (`early`: C04-F2 / C04-F4), a step that acknowledges anything
+has published something — a successor event, a task request's…, the terminal notification — and, by (i), before
+the acknowledgement -/
+theorem predicted_ack_after_consequence (env : Env) (fuel : Nat) (asl input ctx : Json) :
+    ∀ s ∈ (run env fuel asl input ctx).steps, s.early = false → s.frames.any BFr.isAck = true →
+      s.frames.any BFr.isPub = true := by
+  intro s hs
+  rw [steps_eq] at hs
+  exact (endFS_wf _ _ (run_fs_wf env fuel asl input ctx)).consequence s (List.mem_reverse.mp hs)
+
+/-- … the transition of a sequential state: the successor's event is published in the same step as, and before,
+the acknowledgements of that step (the state's own event, the reply that completed it), and is the next delivery -/
+theorem handover_publishes_then_acks (fs : FS) (t : Rat) (name : Str) :
+    (fs.handover t name).steps =
+      { t := t, frames := fs.open_.reverse ++ [.pubEv fs.next name fs.path] ++ (fs.hold ++ fs.now).map .ack, early := false }
+        :: fs.steps ∧
+    (fs.handover t name).open_ = [.deliver fs.next] ∧ (fs.handover t name).hold = [fs.next] := by
+  simp [FS.handover, FS.closeAck, FS.pub, FS.deliverHold, FS.mkStep]
+
+/-- (iv) fuel independence covers the predicted steps too: with more fuel a run that did not run out of fuel
+predicts the same steps -/
+theorem predicted_steps_fuel_independent (env : Env) (n m : Nat) (h : n ≤ m) (asl input ctx : Json)
+    (hs : (run env n asl input ctx).status ≠ S "FUEL") :
+    (run env m asl input ctx).steps = (run env n asl input ctx).steps := by
+  rw [run_fuel_independent env n m h asl input ctx hs]
+
+/-! non-vacuity: the predicted steps of three small machines -/
+private def envX : Env := { tmpl := fun i _ _ => .ok i, choose := fun _ _ _ _ => none, task := fun _ _ _ => .obj [] }
+private def passM : Json := .obj [(S "StartAt", .str (S "A")), (S "States", .obj [
+  (S "A", .obj [(S "Type", .str (S "Pass")), (S "Next", .str (S "B"))]),
+  (S "B", .obj [(S "Type", .str (S "Pass")), (S "End", .bool true)])])]
+private def taskSt (fn : String) : Json :=
+  .obj [(S "Type", .str (S "Task")), (S "Resource", .str (S ("arn:aws:rpcmessage:local::function:" ++ fn))), (S "End", .bool true)]
+private def taskM : Json := .obj [(S "StartAt", .str (S "T")), (S "States", .obj [(S "T", taskSt "f")])]
+private def parM : Json := .obj [(S "StartAt", .str (S "P")), (S "States", .obj [
+  (S "P", .obj [(S "Type", .str (S "Parallel")), (S "End", .bool true), (S "Branches", .arr [
+    .obj [(S "StartAt", .str (S "X")), (S "States", .obj [(S "X", taskSt "f")])],
+    .obj [(S "StartAt", .str (S "Y")), (S "States", .obj [(S "Y", .obj [(S "Type", .str (S "Pass")), (S "End", .bool true)])])]])])])]
+
+/-- Pass, Pass: the start event's step publishes the successor's event before acknowledging; the terminal step
+notifies before acknowledging -/
+example : ((run envX 20 passM (.obj []) (.obj [])).steps.map (·.frames)) =
+    [[.deliver 0, .pubNote (S "RUNNING"), .pubEv 1 (S "B") [], .ack 0],
+     [.deliver 1, .pubNote (S "SUCCEEDED"), .ack 1]] := by decide +kernel
+/-- a Task: the event's step, the delegate's request, the reply's step (after the worker's 10 ms) -/
+example : ((run envX 20 taskM (.obj []) (.obj [])).steps.map (fun s => (s.t, s.frames))) =
+    [(0, [.deliver 0, .pubNote (S "RUNNING")]), (0, [.pubReq 1 0]),
+     (10, [.deliver 1, .pubNote (S "SUCCEEDED"), .ack 0, .ack 1])] := by decide +kernel
+/-- a Parallel state whose second branch ends first: its event is held; the reply of the first completes the join -/
+example : ((run envX 20 parM (.obj []) (.obj [])).steps.map (fun s => (s.t, s.early, s.frames))) =
+    [(0, false, [.deliver 0, .pubNote (S "RUNNING")]),
+     (0, false, [.pubEv 1 (S "X") [0], .pubEv 2 (S "Y") [1], .ack 0]),
+     (0, false, [.deliver 1]), (0, false, [.pubReq 3 1]),
+     (0, true, [.deliver 2]),
+     (10, false, [.deliver 3, .pubNote (S "SUCCEEDED"), .ack 1, .ack 2, .ack 3])] := by decide +kernel
+example : (Ledger.run (predictedFrames (run envX 20 parM (.obj []) (.obj [])))).unacked = [] := by decide +kernel
 
 end Asl.C03
